@@ -1846,10 +1846,11 @@ class Data(BaseCartesianData):
         if isinstance(data, categorical_ndarray):
             data = data.codes
 
-        if axis is None and mask is None:
+        if axis is None and mask is None and statistic not in ('sum', 'percentile'):
             # Since we are just finding overall statistics, not along axes, we
-            # can remove any broadcasted dimension since these should not affect
-            # the statistics.
+            # can remove any broadcasted dimension since these do not affect
+            # the statistics (except for sums and interpolated percentiles,
+            # which depend on how often each value is repeated).
             data = unbroadcast(data)
 
         if random_subset and data.size > random_subset:
